@@ -39,6 +39,23 @@ theorem pathRefusal_key {es : List Bytes} (h : GoodList es) : pathRefusal (key e
   rw [h1, h2]
   rfl
 
+theorem hasNul_key {es : List Bytes} (h : GoodList es) : hasNul (key es) = false := by
+  unfold hasNul
+  rw [splitSlash_key h, List.any_eq_false]
+  intro e he
+  simpa using (h.2 e he).2.1
+
+theorem lastTooLong_key {es : List Bytes} (h : GoodList es) : lastTooLong (key es) = false := by
+  unfold lastTooLong
+  rw [splitSlash_key h]
+  cases hl : es.getLast? with
+  | none => rfl
+  | some e =>
+    have hm : e ∈ es := List.mem_of_getLast? hl
+    have := (h.2 e hm).2.2
+    simp only [gt_iff_lt, decide_eq_false_iff_not, Nat.not_lt]
+    exact this
+
 theorem isAmbient_key {es : List Bytes} (h : GoodList es) : isAmbient (key es) = false := by
   unfold isAmbient
   rw [splitSlash_key h]
